@@ -336,7 +336,15 @@ func roundTrip(tc rtcase) {
 		}
 		g, w := rec.Events[0], tc.Event
 		gt, wt := fmt.Sprintf("%q", []string(g.Tags)), fmt.Sprintf("%q", []string(w.Tags))
-		if g.Title != w.Title || g.Text != w.Text || g.DateHappened != w.DateHappened || g.Source != w.Source || g.AggregationKey != w.AggregationKey || g.SourceTypeName != w.SourceTypeName || g.Priority != w.Priority || g.AlertType != w.AlertType || gt != wt {
+		wantDate := w.DateHappened
+		if wantDate == 0 {
+			// a date of 0 is "no date" on the wire; the receiving end then uses the time of receipt (C19) - the wall clock,
+			// in the ingestion handler: anything from the start of this process until now
+			if now := time.Now().Unix(); g.DateHappened >= processStart && g.DateHappened <= now {
+				wantDate = g.DateHappened
+			}
+		}
+		if g.Title != w.Title || g.Text != w.Text || g.DateHappened != wantDate || g.Source != w.Source || g.AggregationKey != w.AggregationKey || g.SourceTypeName != w.SourceTypeName || g.Priority != w.Priority || g.AlertType != w.AlertType || gt != wt {
 			bad("event-fields", fmt.Sprintf("received %+v", *g))
 		}
 		nontrivial[fmt.Sprintf("%+v%v", *tc.Event, tc.Comp)] = struct{}{}
@@ -743,6 +751,8 @@ func runCorrupt() {
 	}
 	res.Sample(map[string]any{"family": "corrupt", "path": "/v2/raw", "enc": "deflate", "mutation": "truncation at every length"})
 }
+
+var processStart = time.Now().Unix()
 
 func main() {
 	res = vrt.Init()
